@@ -22,7 +22,7 @@ from vf import run as hrun
 from vf.core import InfraError
 
 LEVEL = "model_checking"
-READY = False
+READY = True
 TECHNIQUE = ("TLC as exact rational oracle: Stats.tla defines ROC/AUC/PR, R2/MSE/MAE/BIAS and the statistic tables, TLC enumerates all truth vectors x "
              "score orders and all small regression pairs, checks the property's theorems as invariants and prints cases + exact results; a C driver replays "
              "them through the real library, and records long random runs whose curves/areas/sums TLC recomputes exactly (trace validation)")
@@ -35,6 +35,19 @@ LEVEL_NOTE = ("Trusts TLC's integer/rational arithmetic, the text conversion of 
               "Scores are tie-free by construction (the property's quantifier); ASan/UBSan is the memory monitor.")
 
 W = int(os.environ.get("VERIF_WORKERS", "16"))
+
+
+def _san_brief(err):
+    """the stable part of a sanitizer report (no pids / addresses, so that the same defect gives the same replay file)"""
+    import re
+    out = []
+    for line in err.splitlines():
+        m = re.match(r"\s*(#\d+) 0x[0-9a-f]+ (in \S+ \S+)", line)
+        if m and len(out) < 6:
+            out.append("  %s %s" % (m.group(1), m.group(2)))
+        elif line.startswith("SUMMARY:") or "runtime error:" in line:
+            out.append(line.strip())
+    return "\n".join(out)[:1500]
 FAMS = ["Roc", "Reg", "PlsReg", "Mlr", "PlsDa"]
 EVENT_FN = {"Roc": "ROC", "Area": "curve_area", "Pr": "PrecisionRecall", "Mse": "MSE", "Mae": "MAE", "Rmse": "RMSE", "R2": "R2", "Bias": "BIAS"}
 
@@ -136,7 +149,7 @@ def _replay_cases(ctx, emits, rd, fams):
             rec = emits[crash[-1]["i"]] if crash else {}
             kind = ":".join((h.san or "crash:rc%d" % h.rc).split(":")[:2])
             fn = (h.san or "").split(":")[2] if h.san and h.san.count(":") >= 2 else fam
-            ctx.violation("STATS:%s:%s" % (fn, kind), "family %s, input %s: %s\n%s" % (fam, _inputs(rec), h.san or "rc=%d" % h.rc, h.err[:1800]),
+            ctx.violation("STATS:%s:%s" % (fn, kind), "family %s, input %s: %s\n%s" % (fam, _inputs(rec), h.san or "rc=%d" % h.rc, _san_brief(h.err)),
                           dict(kind="case", rec=_inputs(rec)) if rec else None)
         elif done[0]["cases"] != count[fam] or nres != count[fam]:
             raise InfraError("c15 harness ran %s of %d cases of family %s" % (done[0]["cases"], count[fam], fam))
@@ -165,7 +178,7 @@ def _trace_direction(ctx, rd, nproc, blocks, maxn):
         if h.rc != 0:
             kind = ":".join((h.san or "crash:rc%d" % h.rc).split(":")[:2])
             fn = (h.san or "").split(":")[2] if h.san and h.san.count(":") >= 2 else "trace"
-            ctx.violation("STATS:%s:%s" % (fn, kind), "random-input run seed=%s: %s\n%s" % (j[2], h.san or "rc=%d" % h.rc, h.err[:1800]),
+            ctx.violation("STATS:%s:%s" % (fn, kind), "random-input run seed=%s: %s\n%s" % (j[2], h.san or "rc=%d" % h.rc, _san_brief(h.err)),
                           dict(kind="trace", args=j[2:]))
         if not ev:
             raise InfraError("c15 trace harness produced no events")
@@ -286,7 +299,7 @@ def replay(ctx, body):
             h = hrun.run(_exe(), ["one", p, out], timeout=600)
             ev = hrun.read_ndjson(out)
             if h.rc != 0:
-                ctx.violation("STATS:%s:%s" % (rec["fam"], ":".join((h.san or "crash:rc%d" % h.rc).split(":")[:2])), h.err[:1500], case)
+                ctx.violation("STATS:%s:%s" % (rec["fam"], ":".join((h.san or "crash:rc%d" % h.rc).split(":")[:2])), _san_brief(h.err), case)
             if ev:
                 _validate_events(ctx, ev, "replay_trace", lambda block: case)
                 ctx.traces(sum(1 for e in ev if e["e"] == "Reset"))
@@ -306,7 +319,7 @@ def replay(ctx, body):
             h = hrun.run(_exe(), ["trace", out] + list(a), timeout=1200)
             ev = hrun.read_ndjson(out)
             if h.rc != 0:
-                ctx.violation("STATS:trace:%s" % ":".join((h.san or "crash:rc%d" % h.rc).split(":")[:2]), h.err[:1500], case)
+                ctx.violation("STATS:trace:%s" % ":".join((h.san or "crash:rc%d" % h.rc).split(":")[:2]), _san_brief(h.err), case)
             _validate_events(ctx, ev, "replay_trace", lambda block: case)
             ctx.traces(sum(1 for e in ev if e["e"] == "Reset"))
             for e in ev:
